@@ -303,6 +303,10 @@ pub fn run_matrix(tier: &str, seed: u64, out: &mut Out) {
         // a list that has a data path or none (a literal), depending on data: the item's path variable is null in the second case
         "<block wx:for=\"{{ a ? g : [{name: 'lit', members: [{name: 'lm'}]}] }}\"><v model:value=\"{{ item.name }}\" bind:tap=\"{{ item.name }}\"/><block wx:for=\"{{ item.members }}\" wx:for-item=\"mm\"><v model:value=\"{{ mm.name }}\"/></block></block>",
     ];
+    let mut loop_templates = loop_templates;
+    // a member of a conditional whose branch is the item of a list without data path (the item's path variable is null)
+    loop_templates.push("<block wx:for=\"{{ a ? g : [{name: 'lit', members: []}] }}\"><v model:value=\"{{ (d ? item : k[0]).name }}\" bind:tap=\"{{ (d ? item : k[0]).name }}\" change:p=\"{{ (d ? item : k[0]).name }}\"/></block>");
+    loop_templates.push("<block wx:for=\"{{ a ? g : [{name: 'lit', members: [{name: 'lm'}]}] }}\"><v model:value=\"{{ (d ? (a ? item : k[0]) : item).members[0].name }}\"/></block>");
     let loop_data: Vec<J> = vec![
         json!({"$o": {"a": 1, "d": 0, "f": {"$fn": "ff"},
             "g": {"$a": [{"$o": {"title": "T0", "name": "n0", "members": {"$a": [{"$o": {"name": "m00", "tags": {"$a": [{"$o": {"text": "t000"}}, {"$o": {"text": "t001"}}]}}}, {"$o": {"name": "m01", "tags": {"$a": []}}}]}, "tags": {"$a": []}}},
